@@ -63,6 +63,11 @@ static const char *sname(long nr) {
 	case SYS_fsync: return "fsync"; case SYS_fdatasync: return "fdatasync"; case SYS_ftruncate: return "ftruncate";
 	case SYS_fchmod: return "fchmod"; case SYS_fchmodat: return "fchmodat"; case SYS_chmod: return "chmod";
 	case SYS_newfstatat: return "newfstatat"; case SYS_fstat: return "fstat"; case SYS_lstat: return "lstat"; case SYS_stat: return "stat";
+	case SYS_truncate: return "truncate"; case SYS_link: return "link"; case SYS_linkat: return "linkat";
+	case SYS_symlink: return "symlink"; case SYS_symlinkat: return "symlinkat"; case SYS_mkdir: return "mkdir"; case SYS_mkdirat: return "mkdirat";
+	case SYS_rmdir: return "rmdir"; case SYS_chown: return "chown"; case SYS_lchown: return "lchown"; case SYS_fchownat: return "fchownat";
+	case SYS_fchown: return "fchown"; case SYS_utimensat: return "utimensat"; case SYS_fallocate: return "fallocate";
+	case SYS_copy_file_range: return "copy_file_range"; case SYS_sendfile: return "sendfile"; case SYS_statx: return "statx";
 	}
 	return NULL;
 }
@@ -119,15 +124,25 @@ int main(int argc, char **argv) {
 				switch (nr) {
 				case SYS_openat: readstr(tid, r.rsi, path, sizeof path); intr = underprefix(path); break;
 				case SYS_open: case SYS_creat: case SYS_unlink: case SYS_chmod: case SYS_stat: case SYS_lstat:
+				case SYS_truncate: case SYS_mkdir: case SYS_rmdir: case SYS_chown: case SYS_lchown:
 					readstr(tid, r.rdi, path, sizeof path); intr = underprefix(path); break;
-				case SYS_unlinkat: case SYS_fchmodat: case SYS_newfstatat:
+				case SYS_unlinkat: case SYS_fchmodat: case SYS_newfstatat: case SYS_mkdirat: case SYS_fchownat: case SYS_utimensat: case SYS_statx:
 					readstr(tid, r.rsi, path, sizeof path); intr = underprefix(path); break;
 				case SYS_rename: readstr(tid, r.rdi, path, sizeof path); readstr(tid, r.rsi, path2, sizeof path2); intr = underprefix(path) || underprefix(path2); break;
+				case SYS_link: case SYS_symlink: readstr(tid, r.rdi, path, sizeof path); readstr(tid, r.rsi, path2, sizeof path2); intr = underprefix(path) || underprefix(path2); break;
+				case SYS_linkat: readstr(tid, r.rsi, path, sizeof path); readstr(tid, r.r10, path2, sizeof path2); intr = underprefix(path) || underprefix(path2); break;
+				case SYS_symlinkat: readstr(tid, r.rdi, path, sizeof path); readstr(tid, r.rdx, path2, sizeof path2); intr = underprefix(path) || underprefix(path2); break;
 				case SYS_renameat: case SYS_renameat2: readstr(tid, r.rsi, path, sizeof path); readstr(tid, r.r10, path2, sizeof path2); intr = underprefix(path) || underprefix(path2); break;
 				case SYS_read: case SYS_pread64: case SYS_write: case SYS_pwrite64: case SYS_writev: case SYS_close:
 				case SYS_fsync: case SYS_fdatasync: case SYS_ftruncate: case SYS_fchmod: case SYS_fstat:
+				case SYS_fchown: case SYS_fallocate: case SYS_copy_file_range: case SYS_sendfile:
 					fd = (int)r.rdi;
 					if (fd >= 0 && fd < MAXFD && fdpath[fd][0]) { intr = 1; strcpy(path, fdpath[fd]); }
+					if (!intr && (nr == SYS_copy_file_range || nr == SYS_sendfile)) {
+						// second descriptor: copy_file_range(fd_in, off, fd_out, ...), sendfile(out_fd, in_fd, ...)
+						int fd2 = nr == SYS_sendfile ? (int)r.rsi : (int)r.rdx;
+						if (fd2 >= 0 && fd2 < MAXFD && fdpath[fd2][0]) { intr = 1; strcpy(path, fdpath[fd2]); }
+					}
 					if (stdoutwrites && fd == 1 && nr == SYS_write) { intr = 1; strcpy(path, "<stdout>"); }
 					break;
 				}
